@@ -562,6 +562,9 @@ type c10Input struct {
 	Layout  fsLayout `json:"layout"`
 	Threads int      `json:"threads"`
 	NoPre   bool     `json:"nopre,omitempty"` // no preprocessor configured at all
+	// a block index provider whose index covers nothing is configured: the source drops it on its first lookup and
+	// must behave exactly like a source without provider (continuity check included)
+	UselessIndex bool `json:"useless_index,omitempty"`
 	Delays  fsDelays `json:"delays"`
 	// outside Shutdown(nil): -1 never; k >= 0: right after the k-th handler call has begun (from
 	// another goroutine, after ShutDelayUs)
@@ -608,7 +611,15 @@ func c10Gen(r *Rng, i int, tier string) any {
 		in.ShutAfter = r.Intn(n + 1)
 		in.ShutDelayUs = []int{0, 0, 50, 300, 1500}[r.Intn(5)]
 	}
+	in.UselessIndex = r.Chance(12)
 	return in
+}
+
+// c10NoIndex is a block index provider without any index file
+type c10NoIndex struct{}
+
+func (c10NoIndex) BlocksInRange(baseBlockNum, bundleSize uint64) ([]uint64, error) {
+	return nil, fmt.Errorf("no index covers block %d", baseBlockNum)
 }
 
 func c10Exec(raw json.RawMessage) (*Case, error) {
@@ -639,6 +650,9 @@ func c10Exec(raw json.RawMessage) (*Case, error) {
 		}
 		if !in.NoPre {
 			opts = append(opts, bstream.FileSourceWithConcurrentPreprocess(pre, in.Threads))
+		}
+		if in.UselessIndex {
+			opts = append(opts, bstream.FileSourceWithBlockIndexProvider(c10NoIndex{}))
 		}
 		fs := bstream.NewFileSource(st, l.Start, rec, zap.NewNop(), opts...)
 		if in.ShutAfter >= 0 {
@@ -677,6 +691,9 @@ func c10Exec(raw json.RawMessage) (*Case, error) {
 		shape += "+tail"
 	}
 	cs.Class = fmt.Sprintf("%s/err%d/t%d/p%d", shape, obs.Err, minInt(in.Threads, 3), in.Delays.Profile)
+	if in.UselessIndex {
+		cs.Class += "/useless-index"
+	}
 	if hung {
 		cs.Class += "/hang"
 	}
@@ -707,6 +724,10 @@ func c10Corpus() []any {
 		c10Input{Layout: fsLayout{Bundle: 5, Start: 2, Stop: 7, Files: [][]fsBlk{chain(1, 4), append([]fsBlk{{8, 4, 6}}, fsBlk{10, 5, 8}, fsBlk{14, 7, 10}, fsBlk{18, 9, 14})}}, Threads: 0, Delays: fsDelays{Seed: 7, Profile: 2}, ShutAfter: -1},
 		// parent-link break across a file boundary
 		c10Input{Layout: fsLayout{Bundle: 3, Start: 3, Stop: 8, Files: [][]fsBlk{chain(3, 5), {{12, 6, 999}, {14, 7, 12}, {16, 8, 14}}}}, Threads: 3, Delays: fsDelays{Seed: 1, Profile: 5}, ShutAfter: -1},
+		// the same with a block index provider whose index covers nothing (finding C10-continuity-after-index-dropped)
+		c10Input{Layout: fsLayout{Bundle: 3, Start: 3, Stop: 8, Files: [][]fsBlk{chain(3, 5), {{12, 6, 999}, {14, 7, 12}, {16, 8, 14}}}}, Threads: 3, Delays: fsDelays{Seed: 1, Profile: 5}, ShutAfter: -1, UselessIndex: true},
+		// ... and a break inside a file
+		c10Input{Layout: fsLayout{Bundle: 10, Start: 1, Stop: 6, Files: [][]fsBlk{{{2, 1, 0}, {4, 2, 2}, {6, 3, 999}, {8, 4, 6}, {10, 5, 8}, {12, 6, 10}}}}, Threads: 2, Delays: fsDelays{Seed: 2, Profile: 1}, ShutAfter: -1, UselessIndex: true},
 		// no stop block: the source tails, the harness shuts it down
 		c10Input{Layout: fsLayout{Bundle: 4, Start: 0, Stop: 0, Files: [][]fsBlk{chain(1, 3), chain(4, 7)}}, Threads: 8, Delays: fsDelays{Seed: 3, Profile: 1}, ShutAfter: -1},
 		// outside Shutdown during the third delivery
